@@ -13,29 +13,41 @@ def ep (i : Inst) : Int := (instToEpoch i : Int)
 theorem days_2038 : days 2038 1 1 = 744305 := by decide
 theorem days_1901 : days 1901 1 1 = 694266 := by decide
 
-/-- an instant of the years 1970..2037 has a non-negative epoch time that fits `int32_t` -/
-theorem ep_spec (i : Inst) (h : NormalSec i) (hy1 : 1970 ≤ i.y) (hy2 : i.y ≤ 2037) :
-    ep i = absSec i - epochDays * 86400 ∧ 0 ≤ ep i ∧ ep i < 24837 * 86400 := by
-  have e := C08.toEpoch_spec i (Or.inl h) hy1 (by omega)
+theorem days_1902 : days 1902 1 1 = 694631 := by decide
+
+/-- an instant of the years 1902..2037 has an epoch time (negative before 1970) that fits `int32_t`, with more
+than two days to spare at either end (`24837 * 86400 = 2145916800`; `INT32_MIN` is 1901-12-13T20:45:52Z,
+`INT32_MAX` 2038-01-19T03:14:07Z) -/
+theorem ep_spec (i : Inst) (h : NormalSec i) (hy1 : 1902 ≤ i.y) (hy2 : i.y ≤ 2037) :
+    ep i = absSec i - epochDays * 86400 ∧ -(24837 * 86400) ≤ ep i ∧ ep i < 24837 * 86400 := by
+  have e := C08.toEpoch_spec i (Or.inl h) (by omega) (by omega)
   obtain ⟨⟨a1, a2, a3, a4⟩, a5, a6, a7, a8⟩ := h
-  have l := days_ge_1970 i.y i.m i.d hy1 a1 a2 a3
+  have l : days 1902 1 1 ≤ days i.y i.m i.d := by
+    have := days_year_mono 1902 i.y hy1
+    have := days_month_mono i.y 1 i.m (by omega) a1 a2
+    have := days_d i.y i.m i.d
+    omega
+  rw [days_1902] at l
   have u := days_lt_of_lex i.y i.m i.d 2038 1 1 a1 a2 a4 (by omega) (by omega) (by omega) (Or.inl (by omega))
   rw [days_2038] at u
-  have : days 1970 1 1 = 719468 := epochDays_eq
   unfold ep
   refine ⟨e, ?_, ?_⟩ <;> rw [e, epochDays_eq] <;> simp only [absSec] <;> omega
+
+/-- … and it is not negative exactly from 1970 on -/
+theorem ep_nonneg_iff (i : Inst) (h : NormalSec i) (hy1 : 1902 ≤ i.y) (hy2 : i.y ≤ 2037) :
+    0 ≤ ep i ↔ 1970 ≤ i.y :=
+  C08.toEpoch_nonneg_iff i h (by omega) (by omega)
 
 theorem not_allDay (i : Inst) (h : i.H < 24) : i.isAllDay = false := by
   simp [Inst.isAllDay, allDay]; omega
 
-/-- a second-resolution instant at or after the epoch is determined by its epoch time -/
-theorem ep_of_absSec (j : Inst) (h : NormalSec j) (t : Int) (h0 : 0 ≤ t) (h1 : t < 4102444800)
+/-- a second-resolution instant of 1901..2099, before or after the epoch, is determined by its epoch time -/
+theorem ep_of_absSec (j : Inst) (h : NormalSec j) (t : Int) (h0 : -2177452800 ≤ t) (h1 : t < 4102444800)
     (e : absSec j = epochDays * 86400 + t) : ep j = t := by
-  obtain ⟨n, a⟩ := C08.frEpoch_spec t.toNat (by omega)
-  have : j = epochToInst t.toNat := absSec_inj _ _ h n (by rw [a, e]; omega)
+  obtain ⟨n, a⟩ := C08.frEpoch_spec t h0 h1
+  have : j = epochToInstI t := absSec_inj _ _ h n (by rw [a, e])
   unfold ep
-  rw [this, C08.epoch_roundtrip' t.toNat (by omega)]
-  omega
+  rw [this, C08.epoch_roundtrip' t h0 h1]
 
 /-- `instantLoc`, with the facts about `instToEpoch` as explicit hypotheses -/
 theorem instantLoc_gen (z : Zone) (wf : WF z) (c : ZRng) (hc : CacheOK z c) (i : Inst)
